@@ -686,6 +686,9 @@ class AmpBox(Dict[bytes, bytes]):
                 raise TypeError("Unicode key not allowed: %r" % k)
             if type(v) == str:
                 raise TypeError(f"Unicode value for key {k!r} not allowed: {v!r}")
+            if len(k) == 0:
+                # A zero-length key is what terminates a box on the wire.
+                raise ValueError(f"Empty key not allowed (value: {v!r})")
             if len(k) > MAX_KEY_LENGTH:
                 raise TooLong(True, True, k, None)
             if len(v) > MAX_VALUE_LENGTH:
